@@ -189,6 +189,8 @@ def run_impl(ver, src, env, w, item=None, select=False):
 def verdict(exp, got):
     """-> None | discrepancy kind"""
     if exp[0] == 'err':
+        if 'UNSPECIFIED' in exp[1]:
+            return 'escape' if got[0] == 'escape' else None     # both a value and an error are allowed
         if got[0] == 'err':
             return None              # which error code is not judged here
         if got[0] == 'escape':
